@@ -87,13 +87,17 @@ PROPS["C11"] = {
     "rule": "cases are (curve, operation group, points, scalars); tiny worlds: complete point lists / scalar ranges by odometer; W64: alphabet products; all cases non-trivial; distinct by 64-bit hash; transitions = individual routine results compared with the reference.",
     "assumptions": ["reference group law in ref_ec2.h", "calls inside RLC_TRY", "DRBG/RNG re-seeded identically before every randomised routine"],
     "jobs": [
-        {"name": "ep2-w8", "world": "W8", "src": "props/C11_ep2.c", "share": 0.6},
-        {"name": "ep2-w64", "world": "W64", "src": "props/C11_ep2.c"},
-        {"name": "ep2-w8-jacob", "world": "W8-jacob", "src": "props/C11_ep2.c", "tiers": ("thorough",)},
-        {"name": "ep2-w8-basic", "world": "W8-basic", "src": "props/C11_ep2.c", "tiers": ("thorough",)},
-        {"name": "ep2-w64-381", "world": "W64-381", "src": "props/C11_ep2.c", "tiers": ("thorough",)},
-        {"name": "ep2-w64-446", "world": "W64-446", "src": "props/C11_ep2.c", "tiers": ("thorough",)},
-        {"name": "ep2-w64-446q", "world": "W64-446q", "src": "props/C11_ep2.c", "tiers": ("thorough",)},
+        {"name": "ep2-w8", "world": "W8", "src": "props/C11_ep2.c", "share": 0.6, "share_thorough": 0.3},
+        {"name": "ep2-w64", "world": "W64", "src": "props/C11_ep2.c", "share_thorough": 0.2},
+        {"name": "ep2-w8-jacob", "world": "W8-jacob", "src": "props/C11_ep2.c", "tiers": ("thorough",), "share": 0.08},
+        {"name": "ep2-w8-basic", "world": "W8-basic", "src": "props/C11_ep2.c", "tiers": ("thorough",), "share": 0.08},
+        {"name": "ep2-w64-381", "world": "W64-381", "src": "props/C11_ep2.c", "tiers": ("thorough",), "share": 0.06},
+        {"name": "ep2-w64-446", "world": "W64-446", "src": "props/C11_ep2.c", "tiers": ("thorough",), "share": 0.05},
+        {"name": "ep2-w64-446q", "world": "W64-446q", "src": "props/C11_ep2.c", "tiers": ("thorough",), "share": 0.05},
+        {"name": "fam-g2-w64-315", "world": "W64-315", "src": "props/C04_fam.c", "tiers": ("thorough",), "args": ["--only", "c11-"], "share": 0.04},
+        {"name": "fam-g2-w64-330", "world": "W64-330", "src": "props/C04_fam.c", "tiers": ("thorough",), "args": ["--only", "c11-"], "share": 0.04},
+        {"name": "fam-g2-w64-638", "world": "W64-638", "src": "props/C04_fam.c", "tiers": ("thorough",), "args": ["--only", "c11-"], "share": 0.04},
+        {"name": "fam-g2-w64-575q", "world": "W64-575q", "src": "props/C04_fam.c", "tiers": ("thorough",), "args": ["--only", "c11-"], "share": 0.04},
     ],
 }
 
@@ -109,6 +113,10 @@ PROPS["C12"] = {
         {"name": "pc-w64-381", "world": "W64-381", "src": "props/C12_pc.c"},
         {"name": "pc-w64-446", "world": "W64-446", "src": "props/C12_pc.c", "tiers": ("thorough",)},
         {"name": "pc-w64-446q", "world": "W64-446q", "src": "props/C12_pc.c", "tiers": ("thorough",)},
+        {"name": "fam-pc-w64-315", "world": "W64-315", "src": "props/C04_fam.c", "tiers": ("thorough",), "args": ["--only", "c12-"]},
+        {"name": "fam-pc-w64-330", "world": "W64-330", "src": "props/C04_fam.c", "tiers": ("thorough",), "args": ["--only", "c12-"]},
+        {"name": "fam-pc-w64-638", "world": "W64-638", "src": "props/C04_fam.c", "tiers": ("thorough",), "args": ["--only", "c12-"]},
+        {"name": "fam-pc-w64-575q", "world": "W64-575q", "src": "props/C04_fam.c", "tiers": ("thorough",), "args": ["--only", "c12-"]},
     ],
 }
 
@@ -124,6 +132,10 @@ PROPS["C04"] = {
         {"name": "pair-w64-381", "world": "W64-381", "src": "props/C04_pair.c"},
         {"name": "pair-w64-446", "world": "W64-446", "src": "props/C04_pair.c", "tiers": ("thorough",)},
         {"name": "pair-w64-446q", "world": "W64-446q", "src": "props/C04_pair.c", "tiers": ("thorough",)},
+        {"name": "fam-w64-315", "world": "W64-315", "src": "props/C04_fam.c", "tiers": ("thorough",), "args": ["--only", "c04-"]},
+        {"name": "fam-w64-330", "world": "W64-330", "src": "props/C04_fam.c", "tiers": ("thorough",), "args": ["--only", "c04-"]},
+        {"name": "fam-w64-638", "world": "W64-638", "src": "props/C04_fam.c", "tiers": ("thorough",), "args": ["--only", "c04-"]},
+        {"name": "fam-w64-575q", "world": "W64-575q", "src": "props/C04_fam.c", "tiers": ("thorough",), "args": ["--only", "c04-"]},
     ],
 }
 
